@@ -333,6 +333,7 @@ def make_real(env, m):
 BATCH = 40000
 KIND_ORDER = dict(route=0, gram=1, triple=2)
 KIND_ORDER["class"] = 3
+KIND_ORDER["pool"] = 4
 REAL_ONLY = ("kw", "color", "bgcolor", "link", "via", "cv", "d", "fgs", "bgs", "url", "gen", "base", "right")
 ALIAS_OPS = ("str", "hash", "addnone", "pick")          # calls that hand back the operand itself
 
@@ -563,7 +564,58 @@ def run_class(env, case):
     return rec, dict(labels=labels)
 
 
-RUN = dict(route=lambda env, c: run_route(env, c["steps"]), triple=run_triple, gram=run_gram, **{"class": run_class})
+def spelling_groups(env):
+    """groups of documented spellings of ONE terminal colour (strings and Color objects)"""
+    C = env.Color
+    from rich.color import ANSI_COLOR_NAMES
+    by_num = {}
+    for name, n in ANSI_COLOR_NAMES.items():
+        by_num.setdefault(n, []).append(name)
+    groups = []
+    for n in (0, 1, 7, 8, 15, 16, 21, 100, 200, 231, 232, 255):
+        groups.append(("num", sorted(by_num.get(n, []))[:3] + ["color(%d)" % n, C.from_ansi(n), C.parse("color(%d)" % n)]))
+    for (r, g, b) in ((175, 0, 255), (0, 0, 0), (255, 255, 255), (1, 2, 3), (170, 0, 0)):
+        from rich.color_triplet import ColorTriplet
+        groups.append(("rgb", ["#%02x%02x%02x" % (r, g, b), "#%02X%02X%02X" % (r, g, b), "rgb(%d,%d,%d)" % (r, g, b), C.from_rgb(r, g, b),
+                               C.from_triplet(ColorTriplet(r, g, b)), C.parse("rgb(%d,%d,%d)" % (r, g, b))]))
+    groups.append(("default", ["default", C.default(), C.parse("default")]))
+    return groups
+
+
+def run_pool(env, case):
+    """every spelling of one colour as foreground / background, by keyword, by definition, by from_color, alone and with equal
+    attributes and link on both sides; ==/hash observed for every pair of one slot"""
+    S = env.Style
+    kind, spellings = spelling_groups(env)[case["g"]]
+    objs, labels = [], []
+    for slot in case["slots"]:
+        for sp in spellings:
+            try:
+                if slot == "fg":
+                    x = S(color=sp)
+                elif slot == "bg":
+                    x = S(bgcolor=sp)
+                elif slot == "fg+bold+link":
+                    x = S(color=sp, bold=True, link="https://example.org/a")
+                elif slot == "parse-fg":
+                    x = S.parse(sp if isinstance(sp, str) else sp.name)
+                elif slot == "parse-bg":
+                    x = S.parse("italic on " + (sp if isinstance(sp, str) else sp.name))
+                elif slot == "from_color":
+                    x = S.from_color(env.Color.parse(sp) if isinstance(sp, str) else sp)
+                else:
+                    x = S(bold=True) + S(color=sp)
+            except Exception:
+                continue
+            objs.append(x)
+            labels.append(slot)
+    pairs = [env.pair(objs, i, j) for i, j in itertools.combinations(range(len(objs)), 2) if labels[i] == labels[j] or
+             {labels[i], labels[j]} in ({"fg", "parse-fg"}, {"fg", "from_color"}, {"parse-fg", "from_color"})]
+    rec = dict(k="pool", objs=[env.proj(x) for x in objs], pairs=pairs, rts=[])
+    return rec, dict(labels=labels, colour=kind)
+
+
+RUN = dict(route=lambda env, c: run_route(env, c["steps"]), triple=run_triple, gram=run_gram, pool=run_pool, **{"class": run_class})
 
 
 # ---- instantiating TLC's abstract routes ---------------------------------------------------------------
@@ -929,6 +981,8 @@ def _nontrivial(kind, c):
         return any(s["op"] not in ("kwargs", "parse", "normparse", "fromcolor", "null") for s in c["steps"])
     if kind == "class":
         return len(c["members"]) >= 2
+    if kind == "pool":
+        return True
     return len(c["d"].split()) >= 2
 
 
@@ -971,6 +1025,8 @@ def _brief(kind, c):
         return [[step(s) for s in m] for m in c["members"][:4]]
     if kind == "triple":
         return [step(dict(m, op=m.get("via", "kwargs"))) for m in c["abc"]] + (["pre=" + c["pre"]] if c.get("pre", "none") != "none" else [])
+    if kind == "pool":
+        return "spellings of one colour (group %d) in slots %s" % (c["g"], ",".join(c["slots"]))
     return c["d"]
 
 
@@ -1007,6 +1063,8 @@ def signatures(env, kind, c, rec, meta, v):
             elif kind == "class":
                 labs = [l for l in (meta["labels"][i], meta["labels"][j]) if l != "none"]
                 lab = labs[0] if labs else "pair"
+            elif kind == "pool":
+                lab = "same-colour-other-spelling colour=%s slot=%s" % (meta["colour"], meta["labels"][i])
             elif kind == "triple":
                 labs = [l for l in (meta["labels"][i], meta["labels"][j]) if l != "kwargs"]
                 lab = labs[0] if labs else "kwargs"
@@ -1124,6 +1182,11 @@ def generate(chk, env):
         canon = [dict(bind.maker(json.loads(val)), op="kwargs", cv="str")]
         for i in range(0, len(reps_), 7):
             yield "class", dict(kind="class", members=[canon] + reps_[i:i + 7])
+    # ---- one terminal colour in every documented spelling (names of one number, color(n), #hex in both cases, rgb(), Color objects)
+    SLOTS = ["fg", "bg", "fg+bold+link", "parse-fg", "parse-bg", "from_color", "sum"]
+    for g in range(len(spelling_groups(env))):
+        yield "pool", dict(kind="pool", g=g, slots=SLOTS[:3])
+        yield "pool", dict(kind="pool", g=g, slots=SLOTS[3:])
     # ---- long routes: TLC-simulated over every route kind (cut to 4..7 calls, every seed style widened to all thirteen
     # attributes), hand-listed boundary routes, seeded random routes of 4..8 calls over full-width styles
     ops_seen = {}
